@@ -15,6 +15,7 @@ import Iso8583.Drivers.Describe
 import Iso8583.Drivers.Spec
 import Iso8583.Drivers.Layout
 import Iso8583.Drivers.Track
+import Iso8583.Drivers.TrackMsg
 
 namespace Iso8583.Driver
 
@@ -29,7 +30,8 @@ def handlers : List (List String → Option String) :=
     Iso8583.Drivers.Describe.handle,
     Iso8583.Drivers.Spec.handle,
     Iso8583.Drivers.Layout.handle,
-    Iso8583.Drivers.TrackDrv.handle ]
+    Iso8583.Drivers.TrackDrv.handle,
+    Iso8583.Drivers.TrackMsg.handle ]
 
 def runLine (line : String) : String :=
   let toks := line.splitOn " "
